@@ -12,6 +12,7 @@ import (
 	"google.golang.org/grpc/codes"
 	"google.golang.org/grpc/status"
 	"google.golang.org/protobuf/proto"
+	"google.golang.org/protobuf/types/known/fieldmaskpb"
 
 	"github.com/smart-core-os/sc-golang/pkg/resource"
 	lib "github.com/smart-core-os/sc-golang/verif_h/lib"
@@ -99,15 +100,45 @@ func (t tuple) maskKey() string {
 var cat = lib.Catalogue()
 var empty = &lib.T{}
 
-// check one tuple; returns (violation key, message) or "".
+// target is one live resource a write step is applied to.
+type target struct {
+	v *resource.Value
+	c *resource.Collection
+}
+
+func newTarget(coll bool, w *fieldmaskpb.FieldMask, stored proto.Message) target {
+	var opts []resource.Option
+	if w != nil {
+		opts = append(opts, resource.WithWritableFields(w))
+	}
+	if coll {
+		return target{c: resource.NewCollection(append(opts, resource.WithInitialRecord("id", stored), resource.WithInitialRecord("other", proto.Clone(stored)))...)}
+	}
+	return target{v: resource.NewValue(append(opts, resource.WithInitialValue(stored))...)}
+}
+
+func (g target) get(id string) proto.Message {
+	if g.c != nil {
+		m, _ := g.c.Get(id)
+		return m
+	}
+	return g.v.Get()
+}
+
+// check one tuple on a fresh resource; returns (violation key, message) or "".
 func check(t tuple) (string, string) {
-	stored := proto.Clone(cat[t.S])
+	var w *fieldmaskpb.FieldMask
+	if t.W != nil {
+		w = lib.FM(t.W...)
+	}
+	return step(newTarget(t.Coll, w, proto.Clone(cat[t.S])), "id", t)
+}
+
+// step applies the write described by t (its S is ignored: the stored message is whatever the resource holds)
+// to item id of g and judges it against the statement.
+func step(g target, id string, t tuple) (string, string) {
 	written := proto.Clone(cat[t.Wr])
 	wl := lib.Leaves(written)
-	var opts []resource.Option
-	if t.W != nil {
-		opts = append(opts, resource.WithWritableFields(lib.FM(t.W...)))
-	}
 	var wopts []resource.WriteOption
 	if t.M != nil {
 		wopts = append(wopts, resource.WithUpdateMask(lib.FM(t.M...)))
@@ -125,19 +156,13 @@ func check(t tuple) (string, string) {
 	var panicked any
 	func() {
 		defer func() { panicked = recover() }()
-		if t.Coll {
-			c := resource.NewCollection(append(opts, resource.WithInitialRecord("id", stored))...)
-			m, _ := c.Get("id")
-			before = lib.Leaves(m)
-			_, err = c.Update("id", written, wopts...)
-			m, _ = c.Get("id")
-			after = lib.Leaves(m)
+		before = lib.Leaves(g.get(id))
+		if g.c != nil {
+			_, err = g.c.Update(id, written, wopts...)
 		} else {
-			v := resource.NewValue(append(opts, resource.WithInitialValue(stored))...)
-			before = lib.Leaves(v.Get())
-			_, err = v.Set(written, wopts...)
-			after = lib.Leaves(v.Get())
+			_, err = g.v.Set(written, wopts...)
 		}
+		after = lib.Leaves(g.get(id))
 	}()
 	if panicked != nil {
 		return "panic " + t.maskKey(), fmt.Sprintf("write panicked: %v", panicked)
@@ -277,8 +302,151 @@ func masksW(thorough bool) []mask {
 	return ws
 }
 
+// seqCase: writes applied one after the other, each judged against what the resource held just before it
+// and against the writable fields of THAT write (resource writable fields + its own extra-writable mask).
+// Mode "same": all steps on one item; "other-item": every step but the last goes to a sibling item of the
+// same Collection; "shared-mask": every step but the last goes to another resource configured with the very
+// same FieldMask object.
+type seqCase struct {
+	W     mask
+	Coll  bool
+	Mode  string
+	S     int
+	Steps []tuple
+}
+
+func (c seqCase) key() string {
+	var parts []string
+	for _, t := range c.Steps {
+		parts = append(parts, t.maskKey())
+	}
+	return fmt.Sprintf("seq/%s coll=%v W=%v [%s]", c.Mode, c.Coll, c.W, strings.Join(parts, " ; "))
+}
+
+func checkSeq(c seqCase) (string, string) {
+	var w *fieldmaskpb.FieldMask
+	if c.W != nil {
+		w = lib.FM(c.W...)
+	}
+	g := newTarget(c.Coll, w, proto.Clone(cat[c.S]))
+	first := g
+	if c.Mode == "shared-mask" {
+		first = newTarget(c.Coll, w, proto.Clone(cat[c.S]))
+	}
+	for i, t := range c.Steps {
+		t.W, t.Coll, t.S = c.W, c.Coll, c.S
+		tg, id := g, "id"
+		if i < len(c.Steps)-1 {
+			tg = first
+			if c.Mode == "other-item" {
+				id = "other"
+			}
+		}
+		if k, m := step(tg, id, t); k != "" {
+			return fmt.Sprintf("step%d %s ## %s", i+1, k, c.key()), fmt.Sprintf("write %d of %s: %s", i+1, c.key(), m)
+		}
+	}
+	return "", ""
+}
+
 func main() {
 	h := hx.New("C05")
+	h.Seq("sequences", func(s *hx.Seq) {
+		var rc seqCase
+		if s.Replaying(&rc) {
+			if k, m := checkSeq(rc); k != "" {
+				s.Fail(k, m, rc)
+			}
+			return
+		}
+		// step alphabet: update mask x extra-writable x written message
+		Ms := []mask{nil, {}, {"default_int32"}, {"default_string"}, {"default_nested_message"}, {"default_nested_message.a"},
+			{"default_foreign_message.c"}, {"default_foreign_message"}, {"repeated_int32"}, {"oneof_default_nested_message"}}
+		type xo struct {
+			x   mask
+			all bool
+		}
+		Xs := []xo{{nil, false}, {mask{"default_string"}, false}, {mask{"default_nested_message.a", "default_foreign_message"}, false}, {nil, true}}
+		n := len(cat)
+		Wrs := []int{4, n - 1}
+		Ss := []int{n - 1}
+		depth := 2
+		if s.Thorough {
+			Ms = append(Ms, mask{"default_foreign_message.d"}, mask{"map_string_string"}, mask{"default_int32", "default_string"}, mask{"optional_int32"})
+			Xs = append(Xs, xo{mask{"default_int32"}, false}, xo{mask{"repeated_int32", "oneof_default_nested_message"}, false})
+			Wrs = []int{0, 4, n - 1}
+			Ss = []int{2, n - 1}
+		}
+		var alpha []tuple
+		for _, M := range Ms {
+			for _, X := range Xs {
+				for _, Wr := range Wrs {
+					alpha = append(alpha, tuple{M: M, X: X.x, XAll: X.all, Wr: Wr})
+				}
+			}
+		}
+		Ws := masksW(s.Thorough)
+		var rec func(c seqCase, left int)
+		rec = func(c seqCase, left int) {
+			if left == 0 {
+				s.Eval(1)
+				s.Trans(len(c.Steps))
+				if k, m := checkSeq(c); k != "" {
+					s.Fail(k, m, c)
+				} else {
+					s.Distinct(c.key())
+				}
+				s.State(c.key())
+				return
+			}
+			for _, t := range alpha {
+				c2 := c
+				c2.Steps = append(append([]tuple{}, c.Steps...), t)
+				rec(c2, left-1)
+			}
+		}
+		for _, W := range Ws {
+			if !s.Own() {
+				continue
+			}
+			for _, S := range Ss {
+				for _, coll := range []bool{false, true} {
+					modes := []string{"same", "shared-mask"}
+					if coll {
+						modes = append(modes, "other-item")
+					}
+					for _, mode := range modes {
+						rec(seqCase{W: W, Coll: coll, Mode: mode, S: S}, depth)
+					}
+				}
+			}
+			if s.Stop() {
+				return
+			}
+		}
+		if s.Thorough {
+			// depth 3 over a reduced alphabet: does anything a write leaves behind survive one more write?
+			var a3 []tuple
+			for _, t := range alpha {
+				if t.Wr == 4 && len(t.M) <= 1 && (t.X == nil || len(t.X) == 1) {
+					a3 = append(a3, t)
+				}
+			}
+			alpha = a3
+			for _, W := range Ws {
+				if !s.Own() {
+					continue
+				}
+				rec(seqCase{W: W, Coll: false, Mode: "same", S: n - 1}, 3)
+				rec(seqCase{W: W, Coll: true, Mode: "other-item", S: n - 1}, 3)
+				if s.Stop() {
+					return
+				}
+			}
+		}
+		s.Sample(map[string]any{"sequence": seqCase{W: mask{"default_int32"}, Mode: "same", Steps: []tuple{{M: mask{"default_string"}, X: mask{"default_string"}, Wr: 4}, {M: mask{"default_string"}, Wr: 4}}}.key(),
+			"meaning": "second write names a field that only the first write's extra-writable mask covered: it must be rejected and change nothing"})
+	})
 	h.Seq("masks", func(s *hx.Seq) {
 		var rt tuple
 		if s.Replaying(&rt) {
